@@ -16,7 +16,14 @@ Engine E3 (net).  Two real BinaryBoxProtocol instances joined by a net.Link.
   classes and serve every decode of the process - and used for 1..5 rounds of
   fresh values, each round one box (toBox/fromBox, or makeArguments/
   parseArguments of a Command class made from the schema), sent the same way,
-  in a share of the rounds over a second connection.  In a share of the rounds
+  in a share of the rounds over a second connection.  DateTime values carry
+  amp.utc, a fixed-offset timezone of their own, or one of the run's 1..3 ZONE
+  objects: tzinfo objects shared by every value lying in that zone, whose UTC
+  offset depends on the datetime asked about (a yearly daylight-saving rule,
+  northern or southern, with values to the minute on either side of a switch;
+  local mean time - an offset with seconds - before a year; or plainly fixed),
+  so that one argument object serializes, one after the other, values that
+  share a tzinfo object and differ in offset.  In a share of the rounds
   some of the values on the wire are MALFORMED: a well-formed encoding with its
   tail cut, cut anywhere, a lone byte, bytes appended, one bit flipped, emptied,
   garbage, the key missing, or - for ListOf/AmpList - the same damage inside one
@@ -60,12 +67,15 @@ COMPONENTS = {
 }
 RULE = ("run = 1..5 boxes (valid / unrepresentable / reference-serialized) or 1..5 boxes of the same 1..4 typed argument "
         "objects (fresh values per box; in a share of the boxes some values malformed/truncated, not judged themselves), sent "
-        "through a real BinaryBoxProtocol and delivered to another in tape-chosen pieces; non-trivial = the wire was cut at "
+        "through a real BinaryBoxProtocol and delivered to another in tape-chosen pieces; DateTime values share the run's 1..3 "
+        "zone tzinfo objects whose offset depends on the datetime (daylight-saving rule / local mean time) besides fixed offsets; non-trivial = the wire was cut at "
         "least once and at least one box arrived")
 ASSUMPTIONS = [
     "integers are kept below 2**8000 (CPython's int<->str digit limit is an interpreter setting, not AMP's)",
     "Unicode values contain no lone surrogates; Path values are text-mode absolute FilePaths; DateTime years 2..9998",
     "float equality is == or both NaN (NaN payload bits are not part of the textual wire form)",
+    "zone tzinfo objects give every wall-clock time exactly one offset (a pure function of the datetime's fields, fold ignored; "
+    "total offset strictly within a day), so equality with the decoded fixed-offset value is ordinary aware-datetime equality",
     "a malformed argument value may decode to anything or be refused with any Exception; the statement only covers the "
     "well-formed values decoded by the same argument objects before and after it",
 ]
@@ -265,20 +275,132 @@ def gen_decimal(sim):
     return decimal.Decimal(("-" if sim.draw_bool(0.5, "neg") else "") + digits + "E%d" % exp)
 
 
-def gen_datetime(sim):
+class RuleZone(datetime.tzinfo):
+    """A tzinfo whose UTC offset depends on the datetime it is asked about, as every real-world zone's does: either a
+    yearly daylight-saving rule on the local wall clock (between `start` and `end`, (month, day, hour, minute) keys, the
+    offset is std + delta; start > end = southern hemisphere), or a zone that kept local mean time (an offset with
+    seconds) before the year `cut`.  The offset is a pure function of the wall-clock fields (fold is ignored), so every
+    value has exactly one offset.  One object is shared by all the values of a run that lie in the zone."""
+
+    def __init__(self, label, std, delta=0, start=None, end=None, cut=None, lmt=None):
+        self.label = label
+        self.std = datetime.timedelta(minutes=std)
+        self.delta = datetime.timedelta(minutes=delta)
+        self.start, self.end, self.cut = start, end, cut
+        self.lmt = None if lmt is None else datetime.timedelta(seconds=lmt)
+
+    def _shift(self, dt):
+        if dt is None:
+            return None
+        if self.cut is not None:
+            return "lmt" if dt.year < self.cut else None
+        key = (dt.month, dt.day, dt.hour, dt.minute)
+        if self.start < self.end:
+            inside = self.start <= key < self.end
+        else:
+            inside = not (self.end <= key < self.start)
+        return "dst" if inside else None
+
+    def utcoffset(self, dt):
+        sh = self._shift(dt)
+        if sh == "lmt":
+            return self.lmt
+        return self.std + self.delta if sh == "dst" else self.std
+
+    def dst(self, dt):
+        return self.delta if self._shift(dt) == "dst" else datetime.timedelta(0)
+
+    def tzname(self, dt):
+        return self.label
+
+    def __repr__(self):
+        return "RuleZone(%s)" % self.label
+
+
+STD_OFFSETS = [0, 60, -300, 330, 345, 570, -210, 765, -720, 840]
+
+
+class ZonePool:
+    """The zone tzinfo objects of one run (drawn with the run's first DateTime value) and the run's weight of zone values."""
+
+    def __init__(self):
+        self.weight = None
+        self.zones = []
+        self.last = {}      # zone label -> offset of the value drawn last in that zone
+
+    def note(self, sim, value):
+        label, off = value.tzinfo.tzname(None), value.utcoffset()
+        if self.last.get(label, off) != off:
+            sim.probe("datetime_same_tzinfo_other_offset")
+        self.last[label] = off
+        return value
+
+
+def gen_zones(sim):
+    """The tzinfo objects of one run: 1..3 objects, each shared by every value that lies in that zone - applications
+    keep one tzinfo object per zone.  Kinds: a daylight-saving rule, local mean time before a year, a plain fixed offset."""
+    zones = []
+    for i in range(sim.draw_int(1, 3, "nzones")):
+        kind = sim.draw_weighted([("dst", 6), ("lmt", 2), ("fixed", 2)], "zonekind")
+        std = sim.draw_choice(STD_OFFSETS + [sim.draw_int(-720, 840, "stdmin")], "std")
+        if kind == "fixed":
+            z = datetime.timezone(datetime.timedelta(minutes=std))
+            desc = ("fixed", std)
+        elif kind == "lmt":
+            cut = sim.draw_choice([1900, 1970, 2000, 1000], "lmtcut")
+            lmt = std * 60 + sim.draw_choice([1, 28, 30, 59, -1, -32, -59, 1172], "lmtsec")
+            z = RuleZone("lmt%d" % i, std, cut=cut, lmt=lmt)
+            desc = ("lmt", std, cut, lmt)
+        else:
+            delta = sim.draw_choice([60, 30, 120, -60, 20], "dstdelta")
+            # switches stay inside March..November so that no value near one leaves its year
+            spring = (sim.draw_int(3, 5, "m1"), sim.draw_int(1, 28, "d1"), sim.draw_choice([2, 1, 0, 3, 23], "h1"),
+                      sim.draw_choice([0, 0, 30], "mi1"))
+            autumn = (sim.draw_int(9, 11, "m2"), sim.draw_int(1, 28, "d2"), sim.draw_choice([3, 2, 0, 1, 23], "h2"),
+                      sim.draw_choice([0, 0, 30], "mi2"))
+            south = sim.draw_bool(0.3, "southern")
+            start, end = (autumn, spring) if south else (spring, autumn)
+            z = RuleZone("dst%d" % i, std, delta, start, end)
+            desc = ("dst", std, delta, start, end)
+        sim.event("zone", i, *desc)
+        zones.append((kind, z))
+    return zones
+
+
+def gen_datetime(sim, pool=None):
     year = sim.draw_choice([2024, 2, 9998, 1970, 1999, 999, 1900], "year")
     month = sim.draw_int(1, 12, "month")
     day = sim.draw_int(1, 28, "day")
     micro = sim.draw_choice([0, 1, 999999, 500000, sim.draw_int(0, 999999, "us")], "micro")
-    off = sim.draw_weighted([("utc", 3), ("minutes", 6), ("seconds", 1)], "tzkind")
+    zone_w = 0
+    if pool is not None:
+        if pool.weight is None:
+            pool.weight = sim.draw_choice([6, 0, 2, 40], "zoneweight")
+            pool.zones = gen_zones(sim)
+        zone_w = pool.weight
+    off = sim.draw_weighted([("utc", 3), ("minutes", 6), ("seconds", 1), ("zone", zone_w)], "tzkind")
+    h, m, s = sim.draw_int(0, 23, "h"), sim.draw_int(0, 59, "m"), sim.draw_int(0, 59, "s")
     if off == "utc":
         tz = amp.utc
     elif off == "minutes":
         tz = datetime.timezone(datetime.timedelta(minutes=sim.draw_choice(
             [0, 1, -1, 60, -60, 330, -330, 345, 1439, -1439, sim.draw_int(-1439, 1439, "offmin")], "off")))
-    else:
+    elif off == "seconds":
         tz = datetime.timezone(datetime.timedelta(seconds=sim.draw_choice([30, -30, 19830, -19830, 59, -59, 86399, -86310], "offsec")))
-    return datetime.datetime(year, month, day, sim.draw_int(0, 23, "h"), sim.draw_int(0, 59, "m"), sim.draw_int(0, 59, "s"), micro, tz)
+    else:
+        kind, tz = sim.draw_choice(pool.zones, "zone")
+        sim.probe("datetime_zone_" + kind)
+        if kind == "dst" and sim.draw_bool(0.4, "near-switch"):
+            # a wall-clock time close to one of the zone's two switches (either side, to the minute)
+            mo, d, hh, mi = sim.draw_choice([tz.start, tz.end], "switch")
+            near = datetime.datetime(year, mo, d, hh, mi, s, micro) + datetime.timedelta(
+                minutes=sim.draw_choice([0, -1, 1, -60, 59, 60, -61, sim.draw_int(-180, 180, "nearmin")], "near"))
+            sim.probe("datetime_near_switch")
+            return pool.note(sim, near.replace(tzinfo=tz))
+        if kind == "lmt" and sim.draw_bool(0.4, "near-cut"):
+            year = tz.cut - sim.draw_int(0, 1, "before")
+        return pool.note(sim, datetime.datetime(year, month, day, h, m, s, micro, tz))
+    return datetime.datetime(year, month, day, h, m, s, micro, tz)
 
 
 def gen_path(sim):
@@ -290,7 +412,7 @@ def gen_path(sim):
 SCALARS = ["Integer", "String", "Unicode", "Float", "Boolean", "Decimal", "DateTime", "Path"]
 
 
-def gen_type(sim, depth, in_list=False):
+def gen_type(sim, depth, in_list=False, pool=None):
     """-> (Argument instance, label, value generator)."""
     kinds = [(k, 3) for k in SCALARS]
     if depth < 2:
@@ -311,15 +433,15 @@ def gen_type(sim, depth, in_list=False):
     if k == "Decimal":
         return amp.Decimal(), k, gen_decimal
     if k == "DateTime":
-        return amp.DateTime(), k, gen_datetime
+        return amp.DateTime(), k, lambda s: gen_datetime(s, pool)
     if k == "Path":
         return amp.Path(), k, gen_path
     if k == "ListOf":
-        et, el, eg = gen_type(sim, depth + 1, True)
+        et, el, eg = gen_type(sim, depth + 1, True, pool)
         return amp.ListOf(et), "ListOf(%s)" % el, lambda s: [eg(s) for _ in range(s.draw_int(0, 4, "nlist"))]
     subs = []
     for i in range(sim.draw_int(1, 3, "nsub")):
-        st, sl, sg = gen_type(sim, depth + 1, False)
+        st, sl, sg = gen_type(sim, depth + 1, False, pool)
         opt = sim.draw_bool(0.3, "optional")
         st.optional = opt
         subs.append((("m%d" % i).encode(), st, sl + ("?" if opt else ""), sg, opt))
@@ -441,8 +563,9 @@ def run_args(sim, conn0):
     used for 1..5 rounds of fresh values.  Some rounds carry, for some of the arguments, a malformed value (damage());
     what such a value decodes to is not judged, but every well-formed value, before or after, must decode equal."""
     schema = []
+    pool = ZonePool()    # tzinfo objects shared by the DateTime values of the run, whichever argument object carries them
     for i in range(sim.draw_int(1, 4, "nargs")):
-        at, label, gen = gen_type(sim, 0)
+        at, label, gen = gen_type(sim, 0, False, pool)
         schema.append((("a%d" % i).encode(), at, label, gen))
     api = sim.draw_weighted([("argument", 5), ("command", 3)], "api")
     nrounds = sim.draw_weighted([(1, 5), (2, 3), (3, 2), (sim.draw_int(4, 5, "nrounds"), 1)], "roundskind")
@@ -590,5 +713,11 @@ MUTANTS = [
     "caught (argument-equal:AmpList, argument-decode-raised:AmpList/command)",
     "Unicode.fromString: an incremental UTF-8 decoder kept on the argument object (the bytes of a cut multi-byte character are "
     "prepended to the next value) : caught (argument-decode-raised:Unicode/ListOf/command:UnicodeDecodeError)",
+    "DateTime.toString: the formatted offset remembered on the argument object together with the tzinfo object of the value "
+    "serialized last and re-used while the next value carries the same tzinfo object : caught (argument-equal:DateTime/ListOf/AmpList)",
+    "DateTime.toString: 'offset = i.utcoffset()' -> 'i.tzinfo.utcoffset(None)' (the zone's standard offset whatever the date) : "
+    "caught (argument-equal:DateTime/ListOf/AmpList)",
+    "DateTime.toString: 'offset = i.utcoffset()' -> 'i.replace(hour=12).utcoffset()' (offset decided per date) / "
+    "'i.replace(minute=0).utcoffset()' (per hour) : both caught (argument-equal:DateTime/ListOf/AmpList; values to the minute around a switch)",
     "candidate FIX AmpBox.serialize: 'if len(k) == 0: raise ValueError(...)' before the TooLong check : check passes with EMPTY_KEY_WEIGHT=8 (24000 runs, exit 0)",
 ]
